@@ -167,3 +167,6 @@ func AtStep(name string, max int) {
 	k := Choice(name, max+1)
 	time.Sleep(time.Duration(k) * 200 * time.Microsecond)
 }
+
+// Yield lets other goroutines run (a scheduling point).
+func Yield() { time.Sleep(200 * time.Microsecond) }
